@@ -351,5 +351,17 @@ def t_truncated(ctx):
     ctx.exhaustive.append('every cut of every push encoding for 7 lengths, after 3 prefixes')
 
 
+def fuzz_decode(data):
+    return {'kind': 'raw', 'script': data[:1200].hex()}
+
+
+def t_fuzz(ctx):
+    from .. import fuzzdrv
+    seeds = [b'', b'\xa9\x14' + bytes(20) + b'\x87', b'\x00\x14' + bytes(20), b'\x00\x20' + bytes(32), b'\x52' + b'\x21' + bytes(33) + b'\x51\xae',
+             b'\x4c\x05hello\x4d\x02\x00hi\x4e\x01\x00\x00\x00x\xac', b'\x16\x00\x14' + bytes(20), b'\x60\x02ab']
+    fuzzdrv.campaign(ctx, 'c08', seeds, runs=ctx.n(15000, 0), seconds=ctx.n(0, 240), max_len=1300, label='predicate-fuzz')
+
+
 TASKS = [('exhaustive_raw', (t_exhaustive_raw, 8)), ('exhaustive_tokens', (t_exhaustive_tokens, 4)), ('build', (t_build, 1)),
-         ('raw', (t_raw, 2)), ('num', (t_num, 1)), ('truncated', (t_truncated, 1))]
+         ('raw', (t_raw, 2)), ('num', (t_num, 1)), ('truncated', (t_truncated, 1)),
+         ('fuzz', (t_fuzz, lambda tier: 1 if tier == 'quick' else 6))]
